@@ -22,10 +22,10 @@ Qed.
 Definition qchar (c : N) : bool := negb ((c =? cLT) || (c =? cGT) || (c =? cDQ)).
 
 Lemma word_char_facts : forall c, word_char c = true ->
-  is_ws c = false /\ (c =? cLT) = false /\ (c =? cGT) = false /\ (c =? cDQ) = false /\ (c =? cBS) = false /\
-  (c =? cSP) = false /\ (c =? cTAB) = false /\ (c =? cLF) = false /\ (c =? cCR) = false.
+  sep_char c = false /\ (c =? cLT) = false /\ (c =? cGT) = false /\ (c =? cDQ) = false /\ (c =? cBS) = false.
 Proof.
-  intros c H. unfold word_char in H. unfold is_ws, cLT, cGT, cDQ, cBS, cSP, cTAB, cLF, cCR in *. lia.
+  intros c H. unfold word_char in H. apply andb_true_iff in H as [H1 H2]. apply negb_true_iff in H1, H2.
+  repeat (apply orb_false_iff in H2 as [H2 ?]). now repeat split.
 Qed.
 
 (* ---- one step of split_quoted_triple_content outside literals ------------------------------------------------------ *)
@@ -33,7 +33,7 @@ Definition qs (parts : list str) (cur : str) (d : N) (u : bool) : qst := QS part
 
 Lemma q_step_push : forall parts cur d u c,
   (c =? cLT) = false -> (c =? cGT) = false -> (c =? cDQ) = false ->
-  ((d =? 0) = false \/ (u = false /\ is_ws c = false)) \/ u = true ->
+  ((d =? 0) = false \/ (u = false /\ sep_char c = false)) \/ u = true ->
   q_step (qs parts cur d u) c = qs parts (cur ++ [c]) d u.
 Proof.
   intros parts cur d u c H1 H2 H3 H4. unfold q_step, qs. cbn [q_esc q_lit q_uri q_dep q_cur q_parts].
@@ -41,11 +41,11 @@ Proof.
   destruct (((c =? cSP) || (c =? cTAB) || (c =? cLF) || (c =? cCR)) && (d =? 0) && negb u && true) eqn:E; [|reflexivity].
   exfalso. rewrite andb_true_r in E. apply andb_true_iff in E as [E Eu]. apply andb_true_iff in E as [Ec Ed].
   apply negb_true_iff in Eu. destruct H4 as [[H4|[_ H4]]|H4]; try congruence.
-  unfold is_ws, cSP, cTAB, cLF, cCR in *. lia.
+  unfold sep_char in H4. congruence.
 Qed.
 
 Lemma q_run_push : forall X parts cur d u,
-  forallb qchar X = true -> ((d =? 0) = false \/ (u = false /\ no_ws X = true)) ->
+  forallb qchar X = true -> ((d =? 0) = false \/ (u = false /\ forallb (fun c => negb (sep_char c)) X = true)) ->
   fold_left q_step X (qs parts cur d u) = qs parts (cur ++ X) d u.
 Proof.
   induction X as [|c X IH]; intros parts cur d u H Hd; [now rewrite app_nil_r|].
@@ -196,13 +196,16 @@ Inductive q0tok : str -> Prop :=
 | Q0_qt : forall a b c, qsafe (QQt a b c) = true -> q0tok (qrender (QQt a b c)).
 
 Lemma word_shape : forall w, word_ok w = true ->
-  exists c r, w = c :: r /\ word_char c = true /\ forallb word_char w = true /\ no_ws w = true /\ last_not is_ws w = true.
+  exists c r, w = c :: r /\ word_char c = true /\ forallb word_char w = true /\
+              forallb (fun c => negb (sep_char c)) w = true /\ hd_not is_ws w = true /\ last_not is_ws w = true.
 Proof.
-  intros w H. unfold word_ok in H. apply andb_true_iff in H as [Hn Hc]. destruct w as [|c r]; [discriminate|].
+  intros w H. unfold word_ok in H. apply andb_true_iff in H as [H Hc]. apply andb_true_iff in H as [Hh Hl].
+  destruct w as [|c r]; [discriminate|].
   exists c, r. split; [reflexivity|]. split; [cbn in Hc; now apply andb_true_iff in Hc as [Hc _]|]. split; [assumption|].
-  split.
+  split; [|split].
   - apply (forallb_impl word_char); [|assumption]. intros x Hx. destruct (word_char_facts x Hx) as (Hw & _). now rewrite Hw.
-  - apply forallb_last_not with (f := word_char); [|discriminate|assumption]. intros x Hx. now destruct (word_char_facts x Hx).
+  - exact Hh.
+  - clear Hh Hc. revert c Hl. induction r as [|d r IH]; intros c Hl; [exact Hl|]. apply (IH d). exact Hl.
 Qed.
 
 Lemma qrender_qt_shape : forall a b c,
@@ -217,8 +220,7 @@ Qed.
 Lemma q0_shape : forall x, q0tok x -> trim x = x /\ is_nil x = false /\ hd_not is_ws x = true /\ last_not is_ws x = true.
 Proof.
   intros x [w Hw|a b c Hs].
-  - destruct (word_shape w Hw) as (c & r & -> & Hc & _ & _ & Hl). destruct (word_char_facts c Hc) as (Hws & _).
-    assert (Hh : hd_not is_ws (c :: r) = true) by (cbn; now rewrite Hws).
+  - destruct (word_shape w Hw) as (c & r & -> & Hc & _ & _ & Hh & Hl).
     repeat split; try assumption. now apply trim_id.
   - destruct (qrender_qt_shape a b c) as (H1 & H2 & _ & _). repeat split; try assumption. now apply trim_id.
 Qed.
@@ -226,7 +228,7 @@ Qed.
 Lemma q0_run : forall x parts, q0tok x -> fold_left q_step x (qs parts [] 0 false) = qs parts x 0 false.
 Proof.
   intros x parts [w Hw|a b c Hs].
-  - destruct (word_shape w Hw) as (c & r & E & _ & Hc & Hn & _).
+  - destruct (word_shape w Hw) as (c & r & E & _ & Hc & Hn & _ & _).
     rewrite q_run_push; [reflexivity| |right; now split].
     apply (forallb_impl word_char); [apply word_char_qchar|assumption].
   - now apply q_top_qt.
@@ -263,23 +265,38 @@ Qed.
 (* the tokens of a component *)
 Definition qtoks (t : qterm) : list str := match t with QLit ws => ws | _ => [qrender t] end.
 
+Lemma no_ws_ends : forall s, s <> [] -> no_ws s = true -> hd_nows s = true /\ last_nows s = true.
+Proof.
+  intros s Hne H. unfold no_ws in H. split.
+  - destruct s; [congruence|]. cbn in *. now apply andb_true_iff in H as [H _].
+  - induction s as [|c s IH]; [congruence|]. cbn in H. apply andb_true_iff in H as [Hc Hs].
+    destruct s as [|d s']; [exact Hc|]. apply IH; [discriminate|assumption].
+Qed.
+
 Lemma iri_word : forall s, wf_iri s = true -> no_ws s = true -> word_ok s = true.
 Proof.
-  intros s H Hn. destruct (wf_iri_hd s H) as (c & r & -> & _). unfold word_ok. cbn [is_nil negb andb].
+  intros s H Hn. assert (Hne : s <> []) by (destruct (wf_iri_hd s H) as (c & r & -> & _); discriminate).
+  destruct (no_ws_ends s Hne Hn) as [Hh Hl]. unfold word_ok. rewrite Hh, Hl. cbn [andb].
   apply forallb_forall. intros x Hx. pose proof (wf_iri_chars _ H) as Hc. rewrite forallb_forall in Hc.
-  unfold no_ws in Hn. rewrite forallb_forall in Hn. specialize (Hc x Hx). specialize (Hn x Hx).
-  destruct (iri_char_basic x Hc) as (H1 & H2 & H3 & H4 & _). unfold word_char. now rewrite Hn, H1, H2, H3, H4.
+  specialize (Hc x Hx). destruct (iri_char_basic x Hc) as (H1 & H2 & H3 & H4 & H5 & H6 & H7).
+  unfold iri_char in Hc. unfold word_char, sep_char. rewrite H1, H2, H3, H4, H5, H6, H7.
+  apply andb_true_iff in Hc as [Hc _]. unfold cCR. replace (x =? 13) with false by lia. reflexivity.
 Qed.
 
 Lemma bn_char_word_char : forall c, bn_char c = true -> word_char c = true.
 Proof.
   intros c H. unfold bn_char, is_ascii_alnum, is_ascii_alpha, is_ascii_digit, cUS, cMINUS, cDOT in H.
-  unfold word_char, is_ws, cLT, cGT, cDQ, cBS. lia.
+  unfold word_char, sep_char, cSP, cTAB, cLF, cCR, cLT, cGT, cDQ, cBS. lia.
 Qed.
 
 Lemma bnode_word : forall s, wf_bnode s = true -> word_ok s = true.
 Proof.
-  intros s H. destruct (wf_bnode_shape s H) as (c & r & -> & Hb). unfold word_ok. cbn [is_nil negb andb].
+  intros s H. destruct (wf_bnode_plain s H) as (_ & _ & Hne). destruct (rterm_shape s s (RT_bn s H)) as (Hh & _ & Hl & _).
+  destruct (wf_bnode_shape s H) as (c & r & -> & Hb). unfold word_ok.
+  change (hd_nows (cUS :: cCOLON :: c :: r)) with (hd_not is_ws (cUS :: cCOLON :: c :: r)). rewrite Hh. cbn [andb].
+  assert (El : last_nows (cUS :: cCOLON :: c :: r) = last_not is_ws (cUS :: cCOLON :: c :: r)).
+  { generalize (cUS :: cCOLON :: c :: r). induction l as [|x l IH]; [reflexivity|]. destruct l; [reflexivity|exact IH]. }
+  rewrite El, Hl. cbn [andb].
   change (forallb word_char (cUS :: cCOLON :: c :: r)) with (forallb word_char (c :: r)).
   apply (forallb_impl bn_char); [apply bn_char_word_char|assumption].
 Qed.
